@@ -19,7 +19,7 @@ EXTENDS Integers, Sequences, TLC, Json
 CallerSkipFrameCount == 2
 ContextSkip == 2          \* contextCallerSkipFrameCount (go >= 1.12)
 
-Mechs == {"ev", "evk", "evkglobal", "ctx", "ctxcount", "ctxpinned", "evskipframe", "evskipchain", "global"}
+Mechs == {"ev", "evk", "evkglobal", "ctx", "ctxcount", "ctxpinned", "evskipframe", "evskipchain", "global", "ctxtwice"}
 Entries == {"Trace", "Debug", "Info", "Warn", "Error", "WithLevel", "Err", "Log", "Panic",
             "Print", "Printf", "Println", "Write", "log.Info", "log.Error", "log.Log", "log.WithLevel", "log.Err", "log.Print", "log.Printf",
             \* argument shapes of the printf-style entry points: no arguments at all / a constant format (a fast path is a frame)
@@ -43,6 +43,9 @@ Skip(mech, entry, k) ==
     \* Event.Caller(k-1) while the global CallerSkipFrameCount is 3: the explicit argument is ADDED to the global
     [] mech = "evkglobal" -> (k - 1) + (CallerSkipFrameCount + 1)
     [] mech = "ctx" -> CallerSkipFrameCount + ContextSkip + selfskip                 \* Context.Caller()
+    \* TWO caller hooks on the logger (Caller() and CallerWithSkipFrameCount(global)): the site is computed twice for one event,
+    \* each time with everything the event carries (the frame Print*/Write add included)
+    [] mech = "ctxtwice" -> CallerSkipFrameCount + ContextSkip + selfskip
     [] mech = "ctxcount" -> (2 + k) + ContextSkip + selfskip                         \* CallerWithSkipFrameCount(2+k)
     \* CallerWithSkipFrameCount(2+k) PINS its argument: built while the global CallerSkipFrameCount happens to equal 2+k,
     \* used after the global went back to 2 - the argument still counts, not the global at logging time
@@ -51,7 +54,7 @@ Skip(mech, entry, k) ==
     \* k layered helpers, each adding CallerSkipFrame(1) to the event it passes on: the contributions add up
     [] mech = "evskipchain" -> CallerSkipFrameCount + ContextSkip + selfskip + k
     [] mech = "global" -> (2 + k) + ContextSkip + selfskip                           \* global CallerSkipFrameCount = 2+k
-Wanted(mech, k) == IF mech \in {"ev", "ctx"} THEN 0 ELSE k
+Wanted(mech, k) == IF mech \in {"ev", "ctx", "ctxtwice"} THEN 0 ELSE k
 Stack(mech, entry, depth) == Internal(mech, entry) \o [i \in 1..(depth + 1) |-> "u" \o ToString(i - 1)]
 Selected(mech, entry, k, depth) == Stack(mech, entry, depth)[Skip(mech, entry, k) + 1]
 \* event-level mechanisms need an *Event: not for the self-finishing entries
@@ -62,7 +65,7 @@ Init == done = FALSE
 Next == ~done /\ done' = TRUE
 Spec == Init /\ [][Next]_done
 Combos == {<<m, e, f, o, k>> \in Mechs \X Entries \X Fins \X Others \X Depths : Valid(m, e) /\ (SelfFinishing(e) => f = "Msg")
-                                                                                 /\ (m \in {"ev", "ctx"} => k = 0) /\ (m = "evkglobal" => k >= 1)}
+                                                                                 /\ (m \in {"ev", "ctx", "ctxtwice"} => k = 0) /\ (m = "evkglobal" => k >= 1)}
 \* the arithmetic selects the user's site for every combination
 SkipArithmetic == \A c \in Combos : Selected(c[1], c[2], c[5], c[5]) = "u" \o ToString(Wanted(c[1], c[5]))
 Emit == done \/ \A c \in Combos : PrintT("@@COMBO|" \o ToJson([mech |-> c[1], entry |-> c[2], fin |-> c[3], other |-> c[4], k |-> c[5]]))
